@@ -127,6 +127,23 @@ def c17_2(ctx, ss):
                 elif isinstance(t, (ast.Tuple, ast.List)) and len(t.elts) == 1 and isinstance(t.elts[0], ast.Name):
                     depth[t.elts[0].id], src[t.elts[0].id] = 1, key
                 continue
+            def single_nest(x, lv=0):
+                """((name,),) -> (name, 2): nested single-element unpacking = several unpack levels in one statement"""
+                if isinstance(x, (ast.Tuple, ast.List)) and len(x.elts) == 1:
+                    return single_nest(x.elts[0], lv + 1)
+                return (x, lv) if isinstance(x, ast.Name) and lv > 0 else None
+            sn = single_nest(t)
+            if sn is not None and sn[1] > 1:
+                base = v
+                if isinstance(base, ast.Name) and base.id in depth:
+                    n += sn[1]
+                    k = ckey(ff, None, f"depth:{src[base.id]}:nested")
+                    if depth[base.id] - sn[1] < 0:
+                        ctx.violation("C17.2", k, where(ff, st), f"`{txt(st)}` unpacks {sn[1]} levels of a value that has {depth[base.id]}")
+                    else:
+                        depth[sn[0].id], src[sn[0].id] = depth[base.id] - sn[1], src[base.id]
+                        ctx.holds("C17.2", k, where(ff, st), f"`{txt(st)}`: depth {depth[base.id]} → {depth[sn[0].id]}", 1)
+                continue
             if isinstance(t, (ast.Tuple, ast.List)) and len(t.elts) == 1 and isinstance(t.elts[0], ast.Name):
                 base = v
                 attr = None
@@ -467,6 +484,9 @@ def c17_8(ctx, ss):
         tg = None
         if isinstance(st, ast.AugAssign) and isinstance(st.target, ast.Subscript):
             tg, val = txt(st.target.slice).strip("'"), st.value
+        elif isinstance(st, ast.Expr) and isinstance(st.value, ast.Call) and isinstance(st.value.func, ast.Attribute) and st.value.func.attr == "extend" \
+                and isinstance(st.value.func.value, ast.Subscript) and len(st.value.args) == 1:
+            tg, val = txt(st.value.func.value.slice).strip("'"), st.value.args[0]        # x[k].extend(v) == x[k] += v for lists
         elif isinstance(st, ast.Assign) and isinstance(st.targets[0], (ast.Tuple,)) and len(st.targets[0].elts) == 1 and isinstance(st.targets[0].elts[0], ast.Subscript):
             tg, val = txt(st.targets[0].elts[0].slice).strip("'"), st.value
         if tg in want.values():
